@@ -596,6 +596,18 @@ func partSetters() {
 		if alg == "sha512" {
 			opts = append(opts, manifest.WithDesc(descriptor.Descriptor{Digest: digest.Digest(la.Digest("sha512", b.raw)), MediaType: b.mt}))
 		}
+		if strings.HasPrefix(kind, "oci-i") && rng.Intn(4) == 0 {
+			// OCI allows the body to omit mediaType; the type then comes from the descriptor the caller holds
+			var top map[string]json.RawMessage
+			if json.Unmarshal(b.raw, &top) == nil {
+				delete(top, "mediaType")
+				if nb, err := json.Marshal(top); err == nil {
+					b.raw = nb
+					kind += "-without-mediaType"
+					opts = []manifest.Opts{manifest.WithRaw(b.raw), manifest.WithDesc(descriptor.Descriptor{Digest: digest.Digest(la.Digest(alg, b.raw)), MediaType: b.mt})}
+				}
+			}
+		}
 		m, err := manifest.New(opts...)
 		if err != nil {
 			return
